@@ -481,11 +481,40 @@ package base
 //@   ensures [C01] nooperator: n == 2 && cerr == nil && e.MathPmOperator != "+" && e.MathPmOperator != "-" && e.MathMdOperator != "*" && e.MathMdOperator != "/" ==> result.1 != nil
 //@   modifies frame evalframe
 
+// element read (C03): the container is the injected value of that name (or what it points to); the key is, in this
+// order of priority, the value of the key variable, the string literal, the integer literal - coerced to the map's key
+// type (core.GetWantedValue); a map read yields the stored element, or the ZERO VALUE OF THE ELEMENT TYPE when the key is
+// missing; a slice / array read yields the element at that index. Every error created here cites the node's line (C20).
 //@ func (*MapVar).Evaluate
-//@   props C03
-//@   ensures result.1 != nil ==> result.0 == RV_zero()
+//@   props C03 C20
+//@   arith int unchecked
+//@   requires m != nil
+//@   ghost ng int = 0
+//@   ghost VAL rv = RV_zero()
+//@   ghost KV rv = RV_zero()
+//@   ghost gerr error = nil
+//@   ghost WK rv = RV_zero()
+//@   ghost nw int = 0
+//@   oncall (*context.DataContext).GetValue
+//@     assert [C03] lookups: recv == dc && arg0 == Vars && ((ng == 0 && arg1 == m.Name) || (ng == 1 && gerr == nil && arg1 == m.Varkey && len(m.Varkey) > 0))
+//@     after KV := ite(ng == 1, callresult.0, KV)
+//@     after VAL := ite(ng == 0, callresult.0, VAL)
+//@     after gerr := callresult.1
+//@     after ng := ng + 1
+//@   oncall core.GetWantedValue
+//@     assert [C03] keycoerced: nw == 0 && arg1 == rt_key(rv_typ(ite(rv_kind(VAL) == 22, rv_elem(VAL), VAL))) && ((len(m.Varkey) > 0 && ng == 2 && arg0 == KV) || (len(m.Varkey) == 0 && len(m.Strkey) == 0 && rv_kind(arg0) == 6 && rv_int(arg0) == m.Intkey))
+//@     after WK := callresult.0
+//@     after nw := nw + 1
+//@   ensures [C03] lookuperr: gerr != nil ==> result.1 != nil && result.0 == RV_zero()
+//@   ensures [C20] cites: result.1 != nil ==> cite(result.1) == m.LineNum && result.0 == RV_zero()
+//@   ensures [C03] mapvarkey: gerr == nil && rv_kind(ite(rv_kind(VAL) == 22, rv_elem(VAL), VAL)) == 21 && len(m.Varkey) > 0 ==> nw == 1 && result.1 == nil && result.0 == ite(rv_valid(rv_mapindex(ite(rv_kind(VAL) == 22, rv_elem(VAL), VAL), WK)), rv_mapindex(ite(rv_kind(VAL) == 22, rv_elem(VAL), VAL), WK), rv_zero(rt_elem(rv_typ(ite(rv_kind(VAL) == 22, rv_elem(VAL), VAL)))))
+//@   ensures [C03] mapstrkey: gerr == nil && rv_kind(ite(rv_kind(VAL) == 22, rv_elem(VAL), VAL)) == 21 && len(m.Varkey) == 0 && len(m.Strkey) > 0 ==> result.1 == nil && (exists sk: rv :: rv_kind(sk) == 24 && rv_str(sk) == m.Strkey && result.0 == ite(rv_valid(rv_mapindex(ite(rv_kind(VAL) == 22, rv_elem(VAL), VAL), sk)), rv_mapindex(ite(rv_kind(VAL) == 22, rv_elem(VAL), VAL), sk), rv_zero(rt_elem(rv_typ(ite(rv_kind(VAL) == 22, rv_elem(VAL), VAL))))))
+//@   ensures [C03] mapintkey: gerr == nil && rv_kind(ite(rv_kind(VAL) == 22, rv_elem(VAL), VAL)) == 21 && len(m.Varkey) == 0 && len(m.Strkey) == 0 ==> nw == 1 && result.1 == nil && result.0 == ite(rv_valid(rv_mapindex(ite(rv_kind(VAL) == 22, rv_elem(VAL), VAL), WK)), rv_mapindex(ite(rv_kind(VAL) == 22, rv_elem(VAL), VAL), WK), rv_zero(rt_elem(rv_typ(ite(rv_kind(VAL) == 22, rv_elem(VAL), VAL)))))
+//@   ensures [C03] seqvarkey: gerr == nil && (rv_kind(ite(rv_kind(VAL) == 22, rv_elem(VAL), VAL)) == 23 || rv_kind(ite(rv_kind(VAL) == 22, rv_elem(VAL), VAL)) == 17) && len(m.Varkey) > 0 ==> result.1 == nil && result.0 == rv_index(ite(rv_kind(VAL) == 22, rv_elem(VAL), VAL), rv_int(KV))
+//@   ensures [C03] seqintkey: gerr == nil && (rv_kind(ite(rv_kind(VAL) == 22, rv_elem(VAL), VAL)) == 23 || rv_kind(ite(rv_kind(VAL) == 22, rv_elem(VAL), VAL)) == 17) && len(m.Varkey) == 0 && len(m.Strkey) == 0 && m.Intkey >= 0 ==> result.1 == nil && result.0 == rv_index(ite(rv_kind(VAL) == 22, rv_elem(VAL), VAL), m.Intkey)
+//@   ensures [C03] seqbadkey: gerr == nil && (rv_kind(ite(rv_kind(VAL) == 22, rv_elem(VAL), VAL)) == 23 || rv_kind(ite(rv_kind(VAL) == 22, rv_elem(VAL), VAL)) == 17) && len(m.Varkey) == 0 && (len(m.Strkey) > 0 || m.Intkey < 0) ==> result.1 != nil
+//@   ensures [C03] notcontainer: gerr == nil && ng == 1 && rv_kind(ite(rv_kind(VAL) == 22, rv_elem(VAL), VAL)) != 21 && rv_kind(ite(rv_kind(VAL) == 22, rv_elem(VAL), VAL)) != 23 && rv_kind(ite(rv_kind(VAL) == 22, rv_elem(VAL), VAL)) != 17 ==> result.1 != nil
 //@   modifies frame evalframe
-//@   trusted container contracts pending
 
 // forRange key := container { body }: the iterator's keys, in iterator order, each bound once before its body run (C02)
 //   iters   keys bound so far;  bodyrun  bodies run;  fin  1 break / 2 return / 3 error / 4 empty body
